@@ -48,6 +48,12 @@ func vsIte256(c bool, a, b [256]uint8) [256]uint8 {
 	}
 	return b
 }
+func vsIteWr(c bool, a, b [1 << 24]uint8) [1 << 24]uint8 {
+	if c {
+		return a
+	}
+	return b
+}
 func vsIte64k(c bool, a, b [65536]uint8) [65536]uint8 {
 	if c {
 		return a
@@ -101,3 +107,12 @@ type VsRecHandler struct{ G *VGhost }
 func (h *VsRecHandler) RETNHandle() { h.G.Retn++ }
 func (h *VsRecHandler) RETIHandle() { h.G.Reti++ }
 
+
+// mode-0 overlay (im0data): range test and guarded byte access
+func vsOvIn(start, end, a uint16) bool { return a >= start && a <= end }
+func vsOvByte(d []uint8, i uint16) uint8 {
+	if int(i) < len(d) {
+		return d[i]
+	}
+	return 0
+}
